@@ -6,6 +6,7 @@ from typing import Dict, List, Optional, Tuple
 
 from .. import fx, q
 from ..core import AnchorError, ClassInfo, Ctx, FuncInfo, const_value, dotted, norm, walk_no_nested
+from ..rewrite import single_bindings
 from ..orient import NA, UNK, Orient, Qual, Sig
 
 ID = "C09"
@@ -148,9 +149,32 @@ def run(ctx: Ctx):
     ctx.check(ok, "OR-FLOW", fb, "fraction bits weighted MSB-first", "loop over the MSB-first fraction with weight 2**-(i+1)", f"the fractional weights are not accumulated over the MSB-first fraction (loops over {[(t, str(v)) for _, t, v in fr_loops]})", fb.node)
     if ok:
         lp = [n for n, _, v in fr_loops if v.lay == "FR"][0]
-        txt = norm(lp).replace(" ", "")
-        iv = norm(lp.target.elts[0]) if isinstance(lp.target, ast.Tuple) else "i"
-        ctx.check(any(w in txt for w in (f"2**-({iv}+1)", f"2**(-({iv}+1))", f"2**(-{iv}-1)", f"/2**({iv}+1)")) and "enumerate(" in norm(lp.iter), "OR-FLOW", fb, "fraction bit i has weight 2**-(i+1)", "", "the weight of fraction bit i is not 2**-(i+1)", lp)
+        # weight of the k-th visited bit (k = 0 first): 2 ** -(k + 1), whatever the counter starts at
+        it = lp.iter
+        start = 0
+        is_enum = isinstance(it, ast.Call) and isinstance(it.func, ast.Name) and it.func.id == "enumerate" and isinstance(lp.target, ast.Tuple) and len(lp.target.elts) == 2 and isinstance(lp.target.elts[0], ast.Name)
+        if is_enum:
+            sv = it.args[1] if len(it.args) > 1 else next((k.value for k in it.keywords if k.arg == "start"), None)
+            if sv is not None:
+                start = sv.value if isinstance(sv, ast.Constant) and isinstance(sv.value, int) else None
+        pows = [n for n in ast.walk(lp) if isinstance(n, ast.BinOp) and isinstance(n.op, ast.Pow) and isinstance(n.left, ast.Constant) and n.left.value == 2]
+        if not is_enum or start is None or len(pows) != 1:
+            ctx.undecided(fb.short, f"the fraction loop is not `for i, bit in enumerate(fraction[, start])` with one power of two ({len(pows)} found)")
+        else:
+            iv = lp.target.elts[0].id
+            lf = q.linear_form(pows[0].right)
+            par = fb.pm.get(pows[0])
+            divided = isinstance(par, ast.BinOp) and isinstance(par.op, ast.Div) and par.right is pows[0]
+            if lf is None:
+                ctx.undecided(fb.short, f"the exponent `{norm(pows[0].right)}` is not linear in the bit index")
+            else:
+                if divided:
+                    lf = {k: -v for k, v in lf.items()}
+                # exponent = -(i - start + 1) = -i + start - 1
+                want = {iv: -1}
+                if start - 1:
+                    want[""] = start - 1
+                ctx.check(lf == want, "OR-FLOW", fb, "fraction bit i has weight 2**-(i+1)", f"exponent {norm(pows[0].right)}, counter from {start}", f"the k-th fraction bit (counter `{iv}` from {start}) is weighted 2**({norm(pows[0].right)}){' in a denominator' if divided else ''}, not 2**-(k+1)", pows[0])
     tb = need(qfix, "to_bool")
     o = analyse(ctx, tb, {}, True)
     # the fraction list is built MSB-first by repeated doubling
@@ -221,8 +245,13 @@ def check_texp_args(ctx: Ctx, fi: FuncInfo, o: Orient, want: str, what: str):
 def check_amplitudes(ctx: Ctx, fi: FuncInfo, o: Orient, unit: Optional[str]):
     if not o.index_stores:
         raise AnchorError(fi.short, "no `ampl[index] = 1` store")
+    sb = single_bindings(fi)
     for tgt, v in o.index_stores:
         idx = tgt.slice
+        hops = set()
+        while isinstance(idx, ast.Name) and idx.id in sb and idx.id not in hops:  # `i = int(...); ampl[i] = 1`
+            hops.add(idx.id)
+            idx = sb[idx.id]
         t = norm(idx)
         if unit is not None and t == unit:
             ctx.ok("OR-FLOW", fi, "amplitude index = the encoded integer itself", t, tgt)
@@ -256,31 +285,79 @@ def check_amplitudes(ctx: Ctx, fi: FuncInfo, o: Orient, unit: Optional[str]):
 
 
 def check_fixed_to_bool(ctx: Ctx, fi: FuncInfo, o: Orient):
-    # integer part: LEint of width BIT_SIZE_INTEGER
-    ip = o.env.get("integer_part")
-    if ip is None:
-        raise AnchorError(fi.short, "integer_part not found")
-    lay = ip.lay
+    """pattern = LSB-first integer part (BIT_SIZE_INTEGER bits, no prefix) ++ MSB-first fraction produced by
+    repeated doubling.  The two halves are found from the returned concatenation, not by name."""
     if o.issues:
         return  # the flow findings above already locate the defect
-    ctx.check(lay in ("LE", "LEint") and ip.pre == "none", "OR-SIG", fi, "integer part is LSB-first, without prefix", str(ip), f"integer part is {ip}: the encoder must emit the LSB-first bits of the integer part (strip `0b`, pad at the front while MSB-first, then reverse)", fi.node)
-    # fraction: built by appending int(c_val) == 1 after doubling, i.e. MSB-first
-    loops = [n for n in walk_no_nested(fi.node) if isinstance(n, ast.For)]
-    ok = False
-    for l in loops:
-        if "BIT_SIZE_FRACTIONAL" in norm(l.iter):
-            body = [norm(s).replace(" ", "") for s in l.body]
-            dbl = [i for i, s in enumerate(body) if s.endswith("*=2")]
-            app = [i for i, s in enumerate(body) if "fractional_part+=" in s or "fractional_part.append" in s]
-            ok = bool(dbl) and bool(app) and dbl[0] < app[0] and "[::-1]" not in "".join(body) and "insert(0" not in "".join(body)
-    ctx.check(ok, "OR-SIG", fi, "fraction emitted MSB-first (double, take the integer digit, append)", "", "the fractional digits are not produced by doubling and appended in order", fi.node)
     r = q.returns(fi)
-    ok = len(r) == 1 and norm(r[0].value) == "integer_part + fractional_part"
-    ctx.check(ok, "OR-SIG", fi, "pattern = integer part ++ fraction", "", f"returns `{norm(r[0].value) if r else ''}`", fi.node)
+    if len(r) != 1 or r[0].value is None:
+        ctx.undecided(fi.short, f"{len(r)} return statements in the fixed-point encoder")
+        return
+    rv = r[0].value
+    binds = single_bindings(fi)
+    seen = set()
+    while isinstance(rv, ast.Name) and rv.id in binds and rv.id not in seen:
+        seen.add(rv.id)
+        rv = binds[rv.id]
+    if not (isinstance(rv, ast.BinOp) and isinstance(rv.op, ast.Add)):
+        ctx.undecided(fi.short, f"the encoder returns `{norm(rv)[:60]}`, not the concatenation of an integer part and a fraction")
+        return
+    left, right = rv.left, rv.right
+    # which operand is the integer part: the one computed through bin_to_bool_list
+    def via_b2l(e) -> bool:
+        e2 = e
+        seen_ = set()
+        while True:
+            core, _ = q.reversal_parity(e2, binds)
+            if isinstance(core, ast.Name) and core.id in binds and core.id not in seen_:
+                seen_.add(core.id)
+                e2 = binds[core.id]
+                continue
+            return any(isinstance(c, ast.Call) and (dotted(c.func) or "").endswith("bin_to_bool_list") for c in ast.walk(core))
+    l_int, r_int = via_b2l(left), via_b2l(right)
+    if l_int == r_int:
+        ctx.undecided(fi.short, "cannot tell the integer part from the fraction in the returned concatenation")
+        return
+    ctx.check(l_int, "OR-SIG", fi, "pattern = integer part ++ fraction", norm(rv)[:60], f"returns `{norm(rv)[:80]}`: the fraction comes first", r[0])
+    ip_e, fr_e = (left, right) if l_int else (right, left)
+    ip = o.ev(ip_e)
+    ctx.check(ip.lay in ("LE", "LEint") and ip.pre == "none", "OR-SIG", fi, "integer part is LSB-first, without prefix", str(ip), f"integer part `{norm(ip_e)[:50]}` is {ip}: the encoder must emit the LSB-first bits of the integer part (strip `0b`, pad at the front while MSB-first, then reverse)", r[0])
+    # fraction: a list filled in one loop of BIT_SIZE_FRACTIONAL steps: double the remainder, then append the integer digit
+    fcore, fpar = q.reversal_parity(fr_e, binds)
+    fname = fr_e.id if isinstance(fr_e, ast.Name) else (fcore.id if isinstance(fcore, ast.Name) else None)
+    loops = [n for n in walk_no_nested(fi.node) if isinstance(n, ast.For) and "BIT_SIZE_FRACTIONAL" in norm(n.iter)]
+    if fname is None or len(loops) != 1:
+        ctx.undecided(fi.short, f"the fraction `{norm(fr_e)[:50]}` is not a list filled by one loop over the fractional width")
+    else:
+        l = loops[0]
+        grow, dbl, bad = [], [], []
+        for k, st in enumerate(l.body):
+            t = norm(st).replace(" ", "")
+            if isinstance(st, ast.AugAssign) and norm(st.target) == fname and isinstance(st.op, ast.Add):
+                grow.append(k)
+            elif isinstance(st, ast.Expr) and isinstance(st.value, ast.Call) and isinstance(st.value.func, ast.Attribute) and norm(st.value.func.value) == fname:
+                if st.value.func.attr == "append":
+                    grow.append(k)
+                else:
+                    bad.append(t)
+            elif isinstance(st, ast.Assign) and norm(st.targets[0]) == fname:
+                bad.append(t)
+            if (isinstance(st, ast.AugAssign) and isinstance(st.op, ast.Mult) and norm(st.value) == "2") or (isinstance(st, ast.Assign) and isinstance(st.value, ast.BinOp) and isinstance(st.value.op, ast.Mult) and "2" in (norm(st.value.left), norm(st.value.right))):
+                dbl.append(k)
+        if bad or len(grow) != 1 or not dbl:
+            if bad:
+                ctx.check(False, "OR-SIG", fi, "fraction emitted MSB-first (double, take the integer digit, append)", "", f"the fraction list is filled by {bad}: digits produced by doubling come out most significant first and must be appended in that order", l)
+            else:
+                ctx.undecided(fi.short, f"the fraction loop has {len(grow)} appends and {len(dbl)} doublings")
+        else:
+            ctx.check(dbl[0] < grow[0] and fpar == 0, "OR-SIG", fi, "fraction emitted MSB-first (double, take the integer digit, append)", "", "the fractional digits are not produced by doubling and appended in order" + (" (the list is reversed afterwards)" if fpar else ""), l)
     # width of the integer part is BIT_SIZE_INTEGER
     calls = [c for c in q.calls(fi.node) if (dotted(c.func) or "").endswith("bin_to_bool_list")]
     ok = any(len(c.args) == 2 and norm(c.args[1]).endswith("BIT_SIZE_INTEGER") for c in calls)
-    ctx.check(ok, "OR-SIG", fi, "integer part has BIT_SIZE_INTEGER bits", "", "", fi.node)
+    if not calls:
+        ctx.undecided(fi.short, "no bin_to_bool_list call")
+    else:
+        ctx.check(ok, "OR-SIG", fi, "integer part has BIT_SIZE_INTEGER bits", "", f"`{norm(calls[0])[:70]}` does not ask for BIT_SIZE_INTEGER bits", calls[0])
 
 
 def check_extension_ops(ctx: Ctx, qtype: ClassInfo):
